@@ -198,8 +198,18 @@ def run_e1(harness, model, case_texts, jobs=16, tag='e1'):
         cf = os.path.join(work, f'c{i}.case')
         with open(cf, 'w') as f:
             f.write('\n'.join(chunks[i]) + '\n')
-        h = sh(f'{harness} {cf}')
-        raw = h.stdout
+        try:
+            h = sh(f'{harness} {cf}', timeout=5400)
+            raw = h.stdout
+        except subprocess.TimeoutExpired as e:
+            # a harness that never finishes its chunk (seen once on a mutant: an endless loop inside the code under test):
+            # the cases it did not report come out as `no-output` = ties (VIOLATION ... no-failing-input-found), never as passes
+            out = e.stdout or ''
+            raw = out.decode(errors='replace') if isinstance(out, bytes) else out
+
+            class _H:
+                stderr = 'harness did not finish its chunk within the wall-clock limit of the check'
+            h = _H()
         try:
             d = subprocess.run([driver, model], input=raw, capture_output=True, text=True, timeout=3600)
             return raw, d.stdout, h.stderr[-500:] + d.stderr[-500:]
